@@ -19,12 +19,18 @@ INERT_REFUSALS = {'message:not-a-request', 'message:second-final-block', 'messag
 
 
 class World:
-    def __init__(self, client, r, pid, upgrade=False, **cfg):
+    def __init__(self, client, r, pid, upgrade=False, local_initial=None, **cfg):
         self.client = client
         self.r = r
         self.pid = pid
         self.s = Solo(client, **cfg)
         self.m = M.Conn(client)
+        if local_initial:
+            # the application installs its own initial settings before the connection starts (as servers built
+            # on h2 do); the peer acknowledges them with the first SETTINGS frame
+            import h2.settings
+            self.s.c.local_settings = h2.settings.Settings(client=client, initial_values=dict(local_initial))
+            self.m.local_max_streams = local_initial.get(wire.S_MAX_CONCURRENT_STREAMS, 100)
         self.stop = False           # nothing more may be generated (connection error, K03 on the connection)
         self.tainted = set()        # streams hit by a state-machine refusal (K03): not used any more
         self.rejected = 0
